@@ -431,9 +431,35 @@ func c15Stores(c *h.Ctx, id string, r *rand.Rand) {
 			if pfx && len(n) > 2 {
 				n = n[:len(n)-1-r.Intn(2)]
 			}
-			hist = append(hist, fmt.Sprintf("remove %s prefix=%v", n, pfx))
-			_ = ms.store.Remove(n.Clone(), pfx)
-			_ = bs.store.Remove(n.Clone(), pfx)
+			if r.Intn(3) == 0 {
+				// the removal arrives while another publisher's put-transaction is open on the
+				// in-memory store (transactions are for puts only: a removal acts on the committed
+				// packets). The on-disk store gets the same two operations one after the other.
+				filler := append(enc.Name{enc.NewStringComponent(8, "o"), enc.NewStringComponent(8, "t")}, enc.NewSequenceNumComponent(uint64(step)))
+				hist = append(hist, fmt.Sprintf("remove %s prefix=%v while a put-transaction is open on the memory store", n, pfx))
+				_ = ms.store.Begin()
+				_ = ms.store.Put(filler.Clone(), 1, []byte("filler"))
+				_ = ms.store.Remove(n.Clone(), pfx)
+				_ = ms.store.Commit()
+				// (same net effect, serialised: the removal sees the committed packets only, the
+				// put becomes visible at commit)
+				_ = bs.store.Remove(n.Clone(), pfx)
+				_ = bs.store.Begin()
+				_ = bs.store.Put(filler.Clone(), 1, []byte("filler"))
+				_ = bs.store.Commit()
+				names = append(names, filler)
+				c.Count("removals_during_open_transaction", 1)
+				if !pfx {
+					if a, _ := ms.store.Get(n.Clone(), false); a != nil {
+						c.Violation("C15:removed-packet-still-served:memory-store", id, fmt.Sprintf("Get(%s) still returns %d bytes after Remove returned (the removal was issued while a put-transaction was open)", n, len(a)), map[string]any{"history": hist})
+						return
+					}
+				}
+			} else {
+				hist = append(hist, fmt.Sprintf("remove %s prefix=%v", n, pfx))
+				_ = ms.store.Remove(n.Clone(), pfx)
+				_ = bs.store.Remove(n.Clone(), pfx)
+			}
 		}
 		// queries with a unique answer: every exact name ever stored, and the newest metadata per object
 		for _, n := range names {
